@@ -60,7 +60,14 @@ def main():
             cases = [rp["case"]]
             a.seed = rp.get("seed", a.seed)
         else:
-            cases = list(mod.cases(a.seed, a.tier))
+            # the thorough tier repeats the property's generator over several derived seeds (THOROUGH_ROUNDS)
+            rounds = getattr(mod, "THOROUGH_ROUNDS", 1) if a.tier == "thorough" else 1
+            cases = []
+            for rnd in range(rounds):
+                for c in mod.cases(a.seed + 1000 * rnd, a.tier):
+                    c = dict(c)
+                    c["_round"] = rnd
+                    cases.append(c)
         out["ncases_total"] = len(cases)
         signal.signal(signal.SIGALRM, _alarm)
         marker = a.out + ".cur"
